@@ -37,7 +37,7 @@ var simple *core.Simple
 func init() {
 	simple = &core.Simple{
 		Id: "C07", Lvl: "exploration", Quick: 2100, Thorough: 80000, PerBatch: 350, Width: 175, Timeout: 2400,
-		RuleText: "each case builds a sandbox S/l1/l2/l3/l4/root with uniquely named canary files and directories at every level (including .info_root, .rsrc_root and root.incomplete next to the root, and canaries next to the accounts directory), then — as a client of the server-wide root or, in a third of the cases, of an account with its own file root next to it — sends one file-touching or account request (26 kinds incl. an alias that is made in a sub-folder and then moved up, a folder upload aimed at the root itself while an entry called '.incomplete' lies in it, two-step account sequences on a hostile existing login, the actual transfer for downloads/uploads and folder-upload item headers on the transfer connection) whose name / path items / new name / destination / item header / login carries a hostile component ('..', '.', '/', empty, absolute, a/../../b, NUL, 255-byte and longer, high bytes, more '..' than the sandbox is deep, count/length prefixes that disagree with the data, names aiming at a canary); oracle: the recursive snapshot (names, types, sizes, hashes, link targets) of everything outside the root (outside Users/ for account requests) is unchanged, no link inside the root points outside, and no canary token appears in any reply or transfer byte. distinct = (request kind, hostile class, placement); non-trivial = every case",
+		RuleText: "each case builds a sandbox S/l1/l2/l3/l4/root with uniquely named canary files and directories at every level (including .info_root, .rsrc_root and root.incomplete next to the root, and canaries next to the accounts directory), then — as a client of the server-wide root or, in a third of the cases, of an account with its own file root next to it — sends one file-touching or account request (26 kinds incl. an alias that is made in a sub-folder and then moved up, a folder upload aimed at the root itself while an entry called '.incomplete' lies in it, two-step account sequences on a hostile existing login, the actual transfer for downloads/uploads and folder-upload item headers on the transfer connection) whose name / path items / new name / destination / item header / login carries a hostile component ('..', '.', '/', empty, absolute, a/../../b, NUL, 255-byte and longer, high bytes, more '..' than the sandbox is deep, paths of 257 and 300 items that climb on balance, count/length prefixes that disagree with the data, names aiming at a canary); oracle: the recursive snapshot (names, types, sizes, hashes, link targets) of everything outside the root (outside Users/ for account requests) is unchanged, no link inside the root points outside, and no canary token appears in any reply or transfer byte. distinct = (request kind, hostile class, placement); non-trivial = every case",
 		Case:     runCase,
 		Extra: func(tier string, seed int64) []core.Batch {
 			n := 170
@@ -99,7 +99,19 @@ func hostilePaths(r *core.Rand, canaryName string) []hostile {
 	for i := range many {
 		many[i] = ".."
 	}
+	// more than 255 items (the count no longer fits one byte) that climb on balance: dir/.. pairs, then '..'
+	var deep257, deep300 []string
+	for i := 0; i < 128; i++ {
+		deep257 = append(deep257, "dir", "..")
+	}
+	deep257 = append(deep257, "..")
+	for i := 0; i < 149; i++ {
+		deep300 = append(deep300, "dir", "..")
+	}
+	deep300 = append(deep300, "..", "..")
 	return []hostile{
+		{"path-257-items-climbing", items(deep257...)},
+		{"path-300-items-climbing", items(deep300...)},
 		{"path-absent", nil},
 		{"path-dotdot", items("..")},
 		{"path-dotdot-x2", items("..", "..")},
